@@ -99,6 +99,7 @@ var nameForms = []func(i int, r *rand.Rand) string{
 	func(i int, r *rand.Rand) string { return fmt.Sprintf("规则%d", i) },           // non-ASCII
 	func(i int, r *rand.Rand) string { return fmt.Sprintf("end_%d", i) },         // keyword-like
 	func(i int, r *rand.Rand) string { return fmt.Sprintf("-%d", i+1) },          // looks like a negative number
+	func(i int, r *rand.Rand) string { return fmt.Sprintf("pad%d ", i) },         // ends in a blank (part of the name)
 	func(i int, r *rand.Rand) string { return fmt.Sprintf("r%d", i) },
 	func(i int, r *rand.Rand) string { return fmt.Sprintf("r%d", i) },
 }
